@@ -22,5 +22,6 @@ fp = core.fingerprints(sorted(specs))
 bad = {k: v for k, v in fp.items() if v in ("missing",) or v.startswith("unreadable")}
 if bad:
     print("unresolved:", bad)
+fp["__tree__"] = core.tree_hash()
 (V / "harness" / "fingerprints.json").write_text(json.dumps(fp, indent=1, sort_keys=True) + "\n")
 print(len(fp), "functions fingerprinted")
